@@ -193,8 +193,13 @@ func H_C17_race(v *zzverif.T) {
 	}
 	done := make(chan bool)
 	bad := make(chan string, G+1)
+	lazyName := ""
+	if v.Has("lazyT") {
+		lazyName = v.CStr("lazyT")
+	}
 	for k := 0; k < G; k++ {
 		w := ws[k]
+		lazy := lazyName != "" && k%2 == 0 // every second goroutine hands that input over lazily transposed
 		go func() {
 			defer func() {
 				if r := recover(); r != nil {
@@ -206,6 +211,9 @@ func H_C17_race(v *zzverif.T) {
 				in := Tensors{}
 				for _, d := range w.ds {
 					in[d.name] = d.zzTensor()
+					if lazy && d.name == lazyName && len(d.shape) == 2 {
+						in[d.name] = d.zzLazyT()
+					}
 				}
 				got, gerr := m.Run(in)
 				if (gerr != nil) != (w.werr != nil) || (gerr == nil && !same(got, w.want)) {
